@@ -348,10 +348,15 @@ impl<C: CellType> OptRebuild<'_, C> {
             for vars in expr.grouped_vars() {
                 if vars.len() >= 2 {
                     let mut last = isize::MIN;
+                    let mut has_product = false;
                     for &var in vars {
                         if let Some(expr) = self.pending.get(&var) {
-                            if expr.add_count() > 1 || (last == var && expr.op_count() > 1) {
+                            if expr.add_count() > 1
+                                || ((last == var || has_product) && expr.op_count() > 1)
+                            {
                                 self.emit(var);
+                            } else if expr.op_count() > 1 {
+                                has_product = true;
                             }
                         }
                         last = var;
